@@ -79,7 +79,7 @@ class Obligation:
                  backend=None, timeout_q=240, timeout_t=1800, mem_gb=8, malloc_may_fail=False,
                  desc="", bounds_q="", bounds_t="", stubs=(), functions=(), replay=True,
                  outside="", extra_src=(), tiers=("quick", "thorough"), leak_check=False,
-                 native_units=None, expect_witness=True, fp_restrict=(), replace_calls=()):
+                 native_units=None, expect_witness=True, fp_restrict=(), replace_calls=(), hdefs=()):
         self.name = name; self.src = src; self.func = func; self.lib = lib
         self.units = list(units); self.defs = list(defs); self.qdefs = list(qdefs)
         self.tdefs = list(tdefs)
@@ -95,6 +95,7 @@ class Obligation:
         self.expect_witness = expect_witness
         self.fp_restrict = list(fp_restrict)
         self.replace_calls = list(replace_calls)
+        self.hdefs = list(hdefs)   # -D flags for the harness TU only (not the real units)
 
 
 def cflags(lib, extra_defs):
@@ -159,7 +160,7 @@ class Runner:
         log = []
         for i, s in enumerate(srcs):
             o = os.path.join(d, "u%d_%s.gb" % (i, os.path.basename(s).replace(".c", "")))
-            r = sh(["goto-cc", "-c", "-o", o, s] + flags)
+            r = sh(["goto-cc", "-c", "-o", o, s] + flags + (["-D" + x for x in ob.hdefs] if i == 0 else []))
             log.append(r.stdout)
             if r.returncode != 0:
                 return None, "compile failed: %s\n%s" % (s, r.stdout[-3000:])
@@ -433,6 +434,13 @@ class Runner:
                [os.path.join(VERIF, s) for s in ob.extra_src] + \
                [os.path.join(REPO, u) for u in units]
         exe = os.path.join(self.replay_dir, safe + ".replay.exe")
+        # harness-only defines: compile the harness TU separately
+        hobj = os.path.join(d, "harness_native.o")
+        if ob.hdefs:
+            rr = sh(["gcc", "-std=gnu11", "-O0", "-g", "-w", "-fsanitize=address,undefined", "-fno-sanitize-recover=undefined",
+                     "-c", "-o", hobj, srcs[0]] + flags + ["-D" + x for x in ob.hdefs])
+            if rr.returncode == 0:
+                srcs = [hobj] + srcs[1:]
         cmd = ["gcc", "-std=gnu11", "-O0", "-g", "-w", "-fsanitize=address,undefined",
                "-fno-sanitize-recover=undefined", "-o", exe] + srcs + flags + ["-lpthread", "-Wl,--unresolved-symbols=ignore-all", "-no-pie", "-fno-pie"]
         r = sh(cmd)
